@@ -28,7 +28,7 @@ SPEC = 'spec/proto'
 MC_CFGS = ['cuts', 'three', 'nr', 'fw', 'hostile', 'pay', 'struct']
 DEVS = {            # deviation -> configuration in which TLC must find the violation
     'discard': 'cuts', 'metakeys': 'hostile', 'chanunhash': 'hostile',
-    'tilde': 'pay', 'valuekey': 'pay', 'errsilent': 'pay', 'namesniff': 'struct', 'bracecount': 'struct',
+    'tilde': 'pay', 'valuekey': 'pay', 'errsilent': 'pay', 'namesniff': 'struct', 'bracecount': 'struct', 'truthyonly': 'struct',
 }
 ACTIONS = ['Send', 'Read', 'Reply', 'Hostile', 'Quiet', 'Execute', 'Reject', 'Deliver', 'HDispatch', 'HValue', 'HChan', 'Probe']
 HOSTILE_CLASSES = ['trunc', 'types', 'missing', 'oversize', 'delim', 'chanlist', 'vforge', 'vtypes', 'utf8']
@@ -181,7 +181,7 @@ def random_script(rnd, quick):
         elif r < 0.85 and outstanding:
             sid = rnd.choice(outstanding)
             outstanding.remove(sid)
-            script.append(('P', sid, rnd.choice([1, 1, 2, 3, 4, 5]), rnd.random() < 0.1))
+            script.append(('P', sid, rnd.choice([1, 1, 2, 3, 4, 5, 6, 6]), rnd.random() < 0.1))
         elif hostile_ok:
             q = rnd.random()
             if q < 0.25:
@@ -504,6 +504,13 @@ def run(tier, replay=None):
     for j in range(6 if quick else 40):
         for pay, v in (('wirekey', 3), ('brace', 4), ('struct', 5), ('plain', 3), ('wirekey', 5)):
             add_struct([('S', 's', pay, 'ok'), ('Rb', 0, 4096), ('P', 1, v, False), ('Rb', 1, 4096)], ctx.seed * 17 + j)
+    # every falsy result value; packets of more than 64 KiB (call and answer) in 4 KiB reads
+    for j in range(2 if quick else 8):
+        for v in (60, 61, 62, 63, 64, 65):
+            add_struct([('S', 's', 'plain', 'ok'), ('Rb', 0, 4096), ('P', 1, v, False), ('Rb', 1, 4096)], ctx.seed * 19 + j)
+    for j in range(3 if quick else 12):
+        add_struct([('S', 'h', 'plain', 'ok')], ctx.seed * 23 + j, 'huge-enum')
+        add_struct([('S', 's', 'plain', 'ok'), ('Rb', 0, 4096), ('P', 1, 7, False)], ctx.seed * 23 + j, 'huge-enum')
     from .c19_world import World
     for j in range(1 if quick else 4):
         seed = ctx.seed * 29 + j
